@@ -24,7 +24,8 @@ func generate(prop string, seed uint64, run int) *Case {
 	default:
 		panic("no generator for " + prop)
 	}
-	return g.c
+	// The case that is executed is exactly what a replay file can hold.
+	return g.c.clone()
 }
 
 func (g *gen) opPtrs() []*Op { return g.c.allOps() }
